@@ -255,7 +255,7 @@ func runWorker(bin, prop, tier string, seed uint64, from, stride, n int, budget 
 	sh := fmt.Sprintf("ulimit -v %d; exec \"$0\" \"$@\"", 24*1024*1024)
 	cmd := exec.Command("/bin/sh", append([]string{"-c", sh, bin}, args...)...)
 	cmd.Dir = verifDir
-	cmd.Env = append(os.Environ(), "GOTRACEBACK=all")
+	cmd.Env = append(os.Environ(), "GOTRACEBACK=all", "GORACE=halt_on_error=1 exitcode=66")
 	stdout, _ := cmd.StdoutPipe()
 	var stderr bytes.Buffer
 	cmd.Stderr = &stderr
@@ -389,6 +389,7 @@ func cmdCheck(args []string) int {
 	budget := fs.Duration("budget", 0, "override per-worker wall budget")
 	maxRuns := fs.Int("runs", 0, "override total number of runs")
 	race := fs.Bool("race", false, "build with the race detector")
+	merge := fs.Bool("merge", false, "with --race: keep the evidence of the preceding non-race phase inside the evidence file")
 	if len(args) < 1 {
 		fatal2("usage: verifctl check <property> [--tier quick|thorough]")
 	}
@@ -409,6 +410,10 @@ func cmdCheck(args []string) int {
 	t0 := time.Now()
 	workDir := filepath.Join(outDir, "work", prop+"-"+*tier)
 	_ = os.RemoveAll(workDir)
+	evidenceRace, evidenceMerge = *race, *merge
+	if *race {
+		workDir += "-race"
+	}
 	bin, weaveStats := build(workDir, *race)
 	buildS := time.Since(t0).Seconds()
 	tp := tierOf(*tier)
@@ -498,7 +503,20 @@ func cmdCheck(args []string) int {
 	for _, c := range crashes {
 		sig := crashSignature(c.log)
 		v := &Violation{Rule: "process-terminated", Detail: sig}
-		if !strings.Contains(c.log, "panic") && !strings.Contains(c.log, "fatal error") && !strings.HasPrefix(c.log, "STALL") {
+		if strings.Contains(c.log, "WARNING: DATA RACE") {
+			// the race detector (parallel-burst mode of C20) stopped the worker at the first report
+			sig = raceSignature(c.log)
+			v = &Violation{Rule: "data-race", Detail: sig}
+			if !strings.Contains(sig, "q191201771/lal/") && !strings.Contains(sig, "q191201771/naza/pkg/connection") {
+				harnessTrouble = append(harnessTrouble, fmt.Sprintf("data race inside the harness at idx %d:\n%s", c.idx, c.log))
+				continue
+			}
+		} else if strings.Contains(c.log, "ThreadSanitizer: CHECK failed") {
+			// an internal assertion of the race detector's runtime (seen rarely with tens of thousands of goroutines
+			// parked in finished bubbles): says nothing about lal; the worker was restarted after that run
+			fmt.Fprintf(os.Stderr, "verifctl: note: the race detector runtime aborted at idx %d (ThreadSanitizer CHECK failed); run skipped\n", c.idx)
+			continue
+		} else if !strings.Contains(c.log, "panic") && !strings.Contains(c.log, "fatal error") && !strings.HasPrefix(c.log, "STALL") {
 			harnessTrouble = append(harnessTrouble, fmt.Sprintf("worker died at idx %d without a Go panic:\n%s", c.idx, c.log))
 			continue
 		}
@@ -618,6 +636,51 @@ func crashSignature(log string) string {
 		fr = m[1]
 	}
 	return strings.TrimSpace(msg) + " @ " + fr
+}
+
+// raceSignature condenses a race detector report to the two conflicting accesses (first lal frame of each).
+func raceSignature(log string) string {
+	i := strings.Index(log, "WARNING: DATA RACE")
+	rep := strings.TrimPrefix(log[i:], "WARNING: DATA RACE\n")
+	if j := strings.Index(rep, "=================="); j > 0 {
+		rep = rep[:j]
+	}
+	var parts []string
+	for _, blk := range strings.Split(rep, "\n\n") {
+		lines := strings.Split(strings.TrimSpace(blk), "\n")
+		if len(lines) == 0 {
+			continue
+		}
+		head := lines[0]
+		if !(strings.HasPrefix(head, "Read at") || strings.HasPrefix(head, "Write at") || strings.HasPrefix(head, "Previous read at") || strings.HasPrefix(head, "Previous write at") || strings.HasPrefix(head, "WARNING")) {
+			continue
+		}
+		kind := strings.Fields(strings.TrimPrefix(head, "WARNING: DATA RACE\n"))
+		k := ""
+		if len(kind) > 0 {
+			k = strings.ToLower(kind[0])
+			if k == "previous" && len(kind) > 1 {
+				k = "prev-" + kind[1]
+			}
+		}
+		// the access itself: the first frame that is not runtime / sync plumbing
+		fr := ""
+		for _, l := range lines[1:] {
+			l = strings.TrimSpace(l)
+			if l == "" || strings.HasPrefix(l, "/") || strings.HasPrefix(l, "<autogenerated>") || strings.HasPrefix(l, "runtime.") || strings.HasPrefix(l, "sync/") || strings.HasPrefix(l, "sync.") || strings.HasPrefix(l, "internal/") {
+				continue
+			}
+			if p := strings.Index(l, "("); p > 0 {
+				l = l[:p]
+			}
+			fr = l
+			break
+		}
+		if k != "" && k != "warning:" {
+			parts = append(parts, k+" "+fr)
+		}
+	}
+	return "DATA RACE: " + strings.Join(parts, " / ")
 }
 
 // harnessPanic reports whether the first non-runtime frame of the panic is harness code.
@@ -764,6 +827,9 @@ func cmdReplay(args []string) int {
 
 var levelOf = map[string]string{"C10": "fault_enumeration"}
 
+// evidenceRace / evidenceMerge: set by `check --race [--merge]` (C20's second phase)
+var evidenceRace, evidenceMerge bool
+
 func writeEvidence(prop, tier string, seed uint64, recs []RunRecord, nViol, aborted int, wall, buildS float64, weaveStats json.RawMessage, known []string, trouble []string, crashes int) {
 	level := levelOf[prop]
 	if level == "" {
@@ -869,6 +935,37 @@ func writeEvidence(prop, tier string, seed uint64, recs []RunRecord, nViol, abor
 			"testing/synctest (go1.26.8) provides the fake clock and quiescence detection",
 			"a clean batch is evidence over the sampled runs, not a proof",
 		},
+	}
+	if evidenceRace {
+		cov := ev["coverage"].(map[string]interface{})
+		cov["mode"] = "parallel-burst under the race detector: locks and socket writes are not scheduling points, every enabled delivery of a step is applied at once and lal's goroutines contend on the real mutexes on all cores; the composition of each burst is seeded, the interleaving inside a burst is the Go scheduler's (replay of a race report is best effort)"
+		ev["assumptions"] = append(ev["assumptions"].([]string), "in the -race phase of C20 the simulator deliberately gives up schedule control inside a burst (see coverage.mode); a race report is sound because the detector only reports races it observed")
+		if evidenceMerge {
+			if pb, err := os.ReadFile(filepath.Join(outDir, "evidence", prop+".json")); err == nil {
+				var prev map[string]interface{}
+				if json.Unmarshal(pb, &prev) == nil {
+					if pc, ok := prev["coverage"].(map[string]interface{}); ok {
+						for _, k := range []string{"weave", "real_components", "stub_components"} {
+							delete(pc, k)
+						}
+						pc["mode"] = "lock-aware deterministic: every mutex acquisition, socket write, delivery and accept is a driver decision with forced preemptions"
+						cov["lock_aware_phase"] = pc
+						cov["parallel_burst_phase_evaluations"] = cov["evaluations"]
+						for _, k := range []string{"evaluations", "distinct_nontrivial", "nontrivial_runs"} {
+							a, _ := cov[k].(int)
+							bf, _ := pc[k].(float64)
+							cov[k] = a + int(bf)
+						}
+						if pv, ok := prev["violations"].(float64); ok {
+							ev["violations"] = nViol + int(pv)
+						}
+						if pw, ok := prev["wall_s"].(float64); ok {
+							ev["wall_s"] = wall + pw
+						}
+					}
+				}
+			}
+		}
 	}
 	b, _ := json.MarshalIndent(ev, "", " ")
 	_ = os.MkdirAll(filepath.Join(outDir, "evidence"), 0o755)
